@@ -5,10 +5,8 @@ TIER=$1; shift
 cd /verif
 mkdir -p /tmp/sweep
 for s in "$@"; do
-  for p in C01 C02 C03 C04 C05 C06 C07 C08 C09 C10 C11 C12 C13 C14 C15 C16 C17 C18 C19; do
-    cp evidence/$p.json /tmp/sweep/ev-$p.json 2>/dev/null
-    VERIF_SEED=$s ./vcheck $p --tier $TIER > /tmp/sweep/$p-$TIER-$s.log 2>&1; rc=$?
-    cp /tmp/sweep/ev-$p.json evidence/$p.json 2>/dev/null
+  for p in ${PROPS:-C01 C02 C03 C04 C05 C06 C07 C08 C09 C10 C11 C12 C13 C14 C15 C16 C17 C18 C19}; do
+    VERIF_EVIDENCE_DIR=/tmp/sweep/ev-$TIER-$s VERIF_SEED=$s ./vcheck $p --tier $TIER > /tmp/sweep/$p-$TIER-$s.log 2>&1; rc=$?
     echo "seed=$s rc=$rc $(grep -a "^$p tier" /tmp/sweep/$p-$TIER-$s.log)"
     grep -a -A2 "^VIOLATION\|^INCONCLUSIVE" /tmp/sweep/$p-$TIER-$s.log | grep -a "VIOLATION\|INCONCLUSIVE\|signature" | head -6
   done
